@@ -34,6 +34,9 @@ def norm_state(st):
 def compare_case(ctx, case, o, prof):
     bad = []
     fam = case["fam"]
+    if fam == "eptr":
+        # pointer-format cases: name the slot (P personality / F FDE address / L LSDA) and the encoding byte
+        fam = "eptr:%s:enc0x%02x:asz%d" % (case.get("slot"), case.get("enc", 0), case.get("asz", 0))
     # add_instruction carries a debug assertion on non-decreasing offsets: in the dev profile a
     # script with decreasing offsets stops there, before anything is written
     decreasing = any(f["ins"][i][0] > f["ins"][i + 1][0] for f in case["fdes"] for i in range(len(f["ins"]) - 1))
